@@ -42,7 +42,9 @@ impl Default for InfoSubset {
 impl InfoSubset {
     pub fn normalize(mut self) -> Self {
         // need to read surface if reading any of one of these forms
-        if self.intersects(InfoSubset::READING_FORM | InfoSubset::NORMALIZED_FORM) {
+        if self.intersects(
+            InfoSubset::READING_FORM | InfoSubset::NORMALIZED_FORM | InfoSubset::DIC_FORM_WORD_ID,
+        ) {
             self |= InfoSubset::SURFACE
         }
 
